@@ -16,6 +16,23 @@ class Doc:
         self.n = 0
         self.words = []     # (word, offset in source)
         self.kinds = {}     # construct counts
+        self.files = {}
+        self.flow = 0       # current text flow (0 = main)
+        self.nflows = 0
+        self.word_flow = {} # word -> flow
+        self.specials = []  # (offset, expected character)
+        self.unk = []       # (name, in_maths) in source order
+        self.accented = []  # words whose first letter gets an accent
+
+    def push_flow(self):
+        self.nflows += 1
+        old = self.flow
+        self.flow = self.nflows
+        return old
+
+    def special(self, seq, value):
+        self.specials.append((self.n, value))
+        self.add(seq)
 
     def add(self, s):
         self.parts.append(s)
@@ -27,6 +44,7 @@ class Doc:
         if rng.random() < 0.15:
             w += rng.choice(['é', 'ß', 'Ж', 'ü'])
         self.words.append((w, self.n))
+        self.word_flow[w] = self.flow
         self.add(w)
         return w
 
@@ -60,14 +78,19 @@ def construct(d, rng, depth, ctx):
     k = rng.choice(['textbf', 'unknown', 'label', 'inline', 'footnote',
                     'special', 'verb', 'ref', 'cite', 'comment', 'accent',
                     'usermacro', 'hspace', 'emph2', 'foreign', 'braces',
-                    'index', 'LTadd', 'LTskip', 'framebox', 'phantom'])
+                    'index', 'LTadd', 'LTskip', 'framebox', 'phantom',
+                    'accentverb', 'newline', 'opformula', 'umacro0', 'gls',
+                    'mathunk', 'specialrun', 'defmac', 'optmac', 'hash',
+                    'texorpdf', 'nonumber', 'textinmath', 'xspace', 'cites'])
     d.kind(k)
     if k == 'textbf':
         d.add('\\textbf{')
         sentence(d, rng, depth - 1, ctx)
         d.add('}')
     elif k == 'unknown':
-        d.add('\\unk' + rng.choice('abc') + rng.choice(['', '{', '{']))
+        nm = '\\unk' + rng.choice('abc')
+        d.unk.append((nm, False))
+        d.add(nm + rng.choice(['', '{', '{']))
         if d.parts[-1].endswith('{'):
             sentence(d, rng, depth - 1, ctx)
             d.add('}')
@@ -83,11 +106,16 @@ def construct(d, rng, depth, ctx):
                           '$z.$', '$ u $']))
     elif k == 'footnote' and 'nofoot' not in ctx:
         d.add('\\footnote{')
+        old = d.push_flow()
         sentence(d, rng, depth - 1, ctx | {'nofoot'})
+        d.flow = old
         d.add('}')
     elif k == 'special':
-        d.add(rng.choice(['--', '---', '``', "''", '~', '\\,', '\\%', '\\&',
-                          '\\$', '\\#', '\\_', '\\{', '\\}', '\\ ']))
+        seq, val = rng.choice([('--', '\u2013'), ('---', '\u2014'), ('``', '\u201c'),
+                               ("''", '\u201d'), ('~', '\xa0'), ('\\,', '\u202f'),
+                               ('\\%', '%'), ('\\&', '&'), ('\\$', '$'), ('\\#', '#'),
+                               ('\\_', '_'), ('\\{', '{'), ('\\}', '}'), ('\\ ', ' ')])
+        d.special(seq, val)
         d.word(rng)
     elif k == 'verb':
         d.add('\\verb|')
@@ -101,7 +129,11 @@ def construct(d, rng, depth, ctx):
         d.add('% hidden ' + rng.choice('abc') + '\n')
         d.word(rng)
     elif k == 'accent':
-        d.add(rng.choice(["\\'e", '\\"a', '\\`{o}', '\\^u', '\\c{c}']))
+        seq, val = rng.choice([("\\'e", '\xe9'), ('\\"a', '\xe4'), ('\\`{o}', '\xf2'),
+                               ('\\^u', '\xfb'), ('\\c{c}', '\xe7')])
+        if 'de' in ctx and '"' in seq:
+            seq, val = "\\'e", '\xe9'
+        d.special(seq, val)
     elif k == 'usermacro':
         d.add(rng.choice(['\\um{', '\\umm{', '\\umo{']))
         sentence(d, rng, depth - 1, ctx)
@@ -138,6 +170,85 @@ def construct(d, rng, depth, ctx):
     elif k == 'phantom':
         d.add('\\phantom{X}')
         d.word(rng)
+    elif k == 'accentverb':
+        d.add(rng.choice(["\\'", '\\"', '\\`']) + rng.choice(['', '{']))
+        br = d.parts[-1].endswith('{')
+        d.add('\\verb|')
+        w = d.word(rng)
+        d.accented.append(w)
+        d.add('|' + ('}' if br else ''))
+    elif k == 'newline':
+        d.add(rng.choice(['\\\\ ', '\\\\  ', '\\\\[2ex] ', '\\\\\n', '\\\\']))
+        d.word(rng)
+    elif k == 'opformula':
+        d.add(rng.choice(['$<$', '$=$', '$+$', '$,$', '$\\leq$', '$a$ $<$ $b$',
+                          '$ $', '$\\,$', '$x^{2}_{i}$', '$\\frac{a}{b}$;']))
+    elif k == 'umacro0':
+        d.add(rng.choice(['\\ua', '\\ub{}', '\\uc ', '\\ua{}']))
+        d.add(' ')
+        d.word(rng)
+    elif k == 'gls' and 'gls' in ctx:
+        d.add(rng.choice(['\\gls{pp}', '\\Gls{pp}', '\\glspl{ex}', '\\GLS{ex}',
+                          '\\Glsdesc{ex}', '\\gls{ex}', '\\gls{nolabel}',
+                          '\\glsdisp{ex}{']))
+        if d.parts[-1].endswith('{') and not d.parts[-1].endswith('}'):
+            d.word(rng)
+            d.add('}')
+    elif k == 'mathunk':
+        nm = rng.choice(['\\mun', '\\muo'])
+        d.unk.append((nm, True))
+        d.add('$' + nm + ' + 1$ ')
+        d.word(rng)
+        if rng.random() < 0.5:
+            d.unk.append((nm, False))
+            d.add(' ' + nm + rng.choice(['{}', ' ']))
+            d.word(rng)
+    elif k == 'specialrun':
+        d.add(rng.choice(['?`', '!`', '----', "'''", '```', '-- -', '~~', '\\,\\,',
+                          '\\ \\ ']))
+        d.word(rng)
+    elif k == 'defmac':
+        nm = rng.choice(['\\dfa', '\\dfb'])
+        d.add(rng.choice(['\\def' + nm + '#1{(#1)}', '\\def' + nm + '{D}',
+                          '\\renewcommand{' + nm + '}[1]{[#1]}']))
+        d.add('\n')
+        d.add(nm + '{')
+        d.word(rng)
+        d.add('}')
+    elif k == 'optmac':
+        d.add(rng.choice(['\\umo', '\\umd']))
+        if rng.random() < 0.5:
+            d.add('[')
+            if d.parts[-2] == '\\umd':
+                d.word(rng)
+            else:
+                d.add('unused')
+            d.add(']')
+        if d.parts[-1] == '\\umo' or rng.random() < 0.7 or True:
+            d.add('{')
+            d.word(rng)
+            d.add('}')
+    elif k == 'hash':
+        d.add(rng.choice(['\\#', '#', '#2', '#\u00b2', '#\u0663', '\\&', '&']))
+        d.add(' ')
+        d.word(rng)
+    elif k == 'texorpdf':
+        d.add('\\texorpdfstring{')
+        d.word(rng)
+        d.add('}{pdf}')
+    elif k == 'nonumber':
+        d.add(rng.choice(['\\[ a = b. \\nonumber \\]', '\\[ c, \\mathrlap{x} \\]',
+                          '\\[ d = e \\label{q}. \\]', '\\[ f = g; \\! \\]']))
+    elif k == 'textinmath':
+        d.add('$a \\mbox{')
+        d.word(rng)
+        d.add('} b$')
+    elif k == 'xspace':
+        d.add('\\xspace' + rng.choice([' ', '. ', ', ', '{} ', '\\footnotemark ']))
+        d.word(rng)
+    elif k == 'cites':
+        d.add(rng.choice(['\\parencite[see][p. 3]{k}', '\\footcite{k}', '\\cite*{k}',
+                          '\\Cite[]{k}', '\\eqref{e}', '\\substack{a \\\\ b}']))
     else:
         d.word(rng)
 
@@ -145,7 +256,10 @@ def construct(d, rng, depth, ctx):
 def block(d, rng, depth, ctx):
     k = rng.choice(['par', 'par', 'par', 'section', 'itemize', 'equation',
                     'enumerate', 'theorem', 'verbatim', 'skip', 'figure',
-                    'display', 'table', 'select', 'otherlang', 'proof'])
+                    'display', 'table', 'select', 'otherlang', 'proof',
+                    'verbatim_sp', 'comment_blank', 'label_eol', 'ltinput',
+                    'strayend', 'envspace', 'removed', 'nested_items',
+                    'opequation', 'usepkg'])
     d.kind('block:' + k)
     if k == 'par':
         sentence(d, rng, depth, ctx)
@@ -179,14 +293,16 @@ def block(d, rng, depth, ctx):
     elif k == 'verbatim':
         d.add('\\begin{verbatim}\n')
         d.word(rng)
-        d.add(' $x$ \\foo\n\\end{verbatim}')
+        d.add(' $x$ {y}\n\\end{verbatim}')
     elif k == 'skip':
         d.add('%%% LT-SKIP-BEGIN\nsecret \\foo $\n%%% LT-SKIP-END\n')
         d.word(rng)
     elif k == 'figure':
         d.add('\\begin{figure}[h]\n\\includegraphics[width=3cm]{file.png}\n'
               '\\caption{')
+        old = d.push_flow()
         sentence(d, rng, depth - 1, ctx | {'nofoot'})
+        d.flow = old
         d.add('}\n\\end{figure}')
     elif k == 'table':
         d.add('\\begin{tabular}{ll}\n')
@@ -206,21 +322,92 @@ def block(d, rng, depth, ctx):
         d.add('\\begin{' + env + '}{german}\n')
         sentence(d, rng, depth - 1, ctx)
         d.add('\n\\end{' + env + '}')
+    elif k == 'verbatim_sp':
+        d.add('\\begin{verbatim}' + rng.choice(['  ', '\t', ' ']) + '\n')
+        d.word(rng)
+        d.add('\n\\end{verbatim}')
+    elif k == 'comment_blank':
+        d.word(rng)
+        d.add(' % note\n' + rng.choice(['   ', '\t', ' ', '']) + '\n')
+        d.word(rng)
+    elif k == 'label_eol':
+        d.word(rng)
+        x = rng.choice([' \\label{x}', ' \\index{y}', ' \\unkz', ' \\\\'])
+        if 'unkz' in x:
+            d.unk.append(('\\unkz', False))
+        d.add(x)
+        d.add('\n\n')
+        d.word(rng)
+    elif k == 'ltinput' and d.files:
+        d.word(rng)
+        d.add(' \\LTinput{' + rng.choice(sorted(d.files)) + '}\n')
+        d.word(rng)
+    elif k == 'strayend':
+        d.word(rng)
+        d.add(rng.choice(['\\end{otherlanguage}', '\\end{otherlanguage*}',
+                          '\\end{itemize}', '\\end{equation}', '}', '\\item ']))
+        d.word(rng)
+    elif k == 'envspace':
+        nm = rng.choice(['my block', 'blockx', 'my  env'])
+        d.unk.append((nm, False))
+        d.add('\\begin{' + nm + '}\n')
+        d.word(rng)
+        d.add('\n\\end{' + nm + '}')
+    elif k == 'removed':
+        d.add('\\begin{tikzpicture}\n\\draw (0,0) -- (1,1);\n\\node {hidden};\n'
+              '\\end{tikzpicture}')
+    elif k == 'nested_items':
+        d.add('\\begin{enumerate}\n\\item ')
+        d.word(rng)
+        d.add('\n\\begin{enumerate}\n\\item ')
+        d.word(rng)
+        d.add('\n\\item ')
+        d.word(rng)
+        d.add('\n\\end{enumerate}\n\\item ')
+        d.word(rng)
+        d.add('\n\\end{enumerate}')
+    elif k == 'opequation':
+        env = rng.choice(['align', 'equation', 'eqnarray'])
+        d.add('\\begin{' + env + '}\n  a &= b \\\\\n    &\\leq c' + rng.choice(['.', '', ',']) +
+              rng.choice(['', ' \\nonumber', ' \\label{z}']) + '\n\\end{' + env + '}')
+    elif k == 'usepkg':
+        d.add(rng.choice(['\\usepackage{amsmath}', '\\usepackage[a=b,c={d e}]{xcolor}',
+                          '\\documentclass[12pt]{article}',
+                          '\\usepackage{unknownpkg}', '\\usepackage[x={y]{hyperref}']))
+        d.add('\n')
+        d.word(rng)
     else:
         sentence(d, rng, depth, ctx)
 
 
 PREAMBLE = ('\\newcommand{\\um}[1]{#1}\n\\newcommand{\\umm}[1]{<#1>}\n'
-            '\\newcommand{\\umo}[2][opt]{#2}\n\\newtheorem{thm}{Theorem}\n')
+            '\\newcommand{\\umo}[2][opt]{#2}\n\\newtheorem{thm}{Theorem}\n'
+            '\\newcommand{\\ua}{UA}\\newcommand{\\ub}{\\verb|ub body text|}'
+            '\\newcommand{\\uc}{U \\textbf{c}}\n'
+            '\\newcommand{\\umd}[2][dflt]{<#1|#2>}\n')
+
+GLSDEFS = ('\\gls@defglossaryentry{pp}%\n{%\nname={ppm},%\ntext={ppm},%\n'
+           'plural={ppms},%\ndescription={parts per million}%\n}%\n'
+           '\\gls@defglossaryentry{ex}%\n{%\nname={example},%\ntext={example},%\n'
+           'plural={examples},%\ndescription={a sample}%\n}%\n')
 
 
-def gen_doc(rng, depth=2, blocks=None, lang=False, preamble=True):
+def gen_doc(rng, depth=2, blocks=None, lang=False, preamble=True, files=None,
+            gls=False):
     d = Doc()
+    d.files = dict(files or {})
     if preamble:
         d.add(PREAMBLE)
     if lang:
-        d.add('\\usepackage[german,english]{babel}\n')
+        d.add(rng.choice(['\\usepackage[german,english]{babel}\n',
+                          '\\documentclass[english]{article}\\usepackage[ngerman]{babel}\n',
+                          '\\usepackage[english]{babel}\n']))
+    if gls:
+        d.files['main.glsdefs'] = GLSDEFS
+        d.add('\\usepackage{glossaries}\n\\LTinput{main.glsdefs}\n')
     ctx = {'lang'} if lang else set()
+    if gls:
+        ctx.add('gls')
     nb = blocks if blocks is not None else rng.randint(1, 5)
     for i in range(nb):
         block(d, rng, depth, ctx)
